@@ -53,6 +53,20 @@ pub assume_specification<T>[ <T as core::convert::From<T>>::from ](t: T) -> (r: 
 // ---------------------------------------------------------------- shim: opaque data (trusted; same text as unit appends)
 #[derive(Clone, Copy)]
 pub struct AirPos(pub usize);
+// real: lexer/text_pos.rs `struct AirPos(usize)` with derived PartialEq/PartialOrd (same text as unit validator)
+pub open spec fn ord_of(a: int, b: int) -> core::cmp::Ordering {
+    if a < b { core::cmp::Ordering::Less } else if a == b { core::cmp::Ordering::Equal } else { core::cmp::Ordering::Greater }
+}
+impl PartialEq for AirPos { fn eq(&self, o: &Self) -> bool { self.0 == o.0 } }
+impl PartialOrd for AirPos { fn partial_cmp(&self, o: &Self) -> Option<core::cmp::Ordering> { self.0.partial_cmp(&o.0) } }
+impl vstd::std_specs::cmp::PartialEqSpecImpl<AirPos> for AirPos {
+    open spec fn obeys_eq_spec() -> bool { true }
+    open spec fn eq_spec(&self, o: &AirPos) -> bool { self.0 == o.0 }
+}
+impl vstd::std_specs::cmp::PartialOrdSpecImpl<AirPos> for AirPos {
+    open spec fn obeys_partial_cmp_spec() -> bool { true }
+    open spec fn partial_cmp_spec(&self, o: &AirPos) -> Option<core::cmp::Ordering> { Some(ord_of(self.0 as int, o.0 as int)) }
+}
 pub struct ValueAggregate { pub x: u64 }
 pub struct ExecutionError { pub x: u8 }
 pub type ExecutionResult<T> = Result<T, ExecutionError>;
@@ -70,6 +84,16 @@ pub type ExecutionResult<T> = Result<T, ExecutionError>;
 //@ lift crates/air-lib/air-parser/src/parser/span.rs :: struct Span
 //@ derive Clone Copy
 //@ end
+//@ import-spec appends :: span_contains
+impl Span {
+//@ lift crates/air-lib/air-parser/src/parser/span.rs :: impl Span :: fn contains_position
+//@ name Span::contains_position
+//@ props C13
+//@ ret r
+//@ spec
+        ensures r == span_contains(*self, position)
+//@ end
+}
 
 // ---------------------------------------------------------------- shim: trace handler with the ghost log of compactify calls (trusted)
 pub struct TraceHandler { pub compacted: Ghost<Seq<(Stream, ExecutionResult<()>)>>, pub x: u8 }
@@ -177,6 +201,33 @@ impl<D> HashMap<String, Vec<D>> {
     { unimplemented!() }
 }
 
+// `Iterator::rev` of a slice iterator (a provided method of DoubleEndedIterator, which Verus cannot be given a specification for;
+// vstd has no model of `core::iter::Rev`): yields the remaining elements in reverse order, terminates
+#[verifier::external_body]
+#[verifier::reject_recursive_types(T)]
+pub struct RevIter<'a, T> { inner: core::iter::Rev<core::slice::Iter<'a, T>> }
+impl<'a, T> Iterator for RevIter<'a, T> {
+    type Item = &'a T;
+    #[verifier::external_body]
+    fn next(&mut self) -> (r: Option<&'a T>) { self.inner.next() }
+}
+impl<'a, T> vstd::std_specs::iter::IteratorSpecImpl for RevIter<'a, T> {
+    open spec fn obeys_prophetic_iter_laws(&self) -> bool { true }
+    #[verifier::prophetic]
+    uninterp spec fn remaining(&self) -> Seq<&'a T>;
+    #[verifier::prophetic]
+    open spec fn will_return_none(&self) -> bool { true }
+    uninterp spec fn decrease(&self) -> Option<nat>;
+    uninterp spec fn peek(&self, index: int) -> Option<&'a T>;
+}
+pub trait VerifRev<'a, T> { fn verif_rev(self) -> RevIter<'a, T>; }
+impl<'a, T> VerifRev<'a, T> for core::slice::Iter<'a, T> {
+    #[verifier::external_body]
+    fn verif_rev(self) -> (r: RevIter<'a, T>)
+        ensures r.decrease() is Some, r.remaining() == self.remaining().reverse()
+    { RevIter { inner: self.rev() } }
+}
+
 // `name.into()` for the `impl Into<String>` parameter (vstd has no spec for `<&str as Into<String>>::into`, and the orphan rule forbids
 // giving one here): `into_text(name)` is the text of the String the conversion returns; for the `&str` both callers pass it is the text
 // of the argument (std: `impl From<&str> for String` copies the text)
@@ -205,20 +256,73 @@ impl StreamDescriptor {
 }
 
 pub type StreamTable = Map<Seq<char>, Seq<StreamDescriptor>>;
-//@ import-spec appends :: bound_to still_there kept_in no_stream_lost
+//@ import-spec appends :: bound_to still_there kept_in no_stream_lost closest
+
+// ---------------------------------------------------------------- find_closest: the search direction of the getters is `closest`
+pub open spec fn ref_spans(ds: Seq<&StreamDescriptor>) -> Seq<Span> { ds.map_values(|d: &StreamDescriptor| d.span) }
+// `closest` looks at the spans from the last one down: the ones that do not contain the position can be cut off
+pub proof fn lemma_closest_skip_last(spans: Seq<Span>, p: AirPos, k: int)
+    requires 0 <= k <= spans.len(), forall|i: int| spans.len() - k <= i < spans.len() ==> !span_contains(#[trigger] spans[i], p)
+    ensures closest(spans, p) == closest(spans.take(spans.len() - k), p)
+    decreases k
+{
+    if k == 0 { assert(spans.take(spans.len() as int) =~= spans); }
+    else {
+        lemma_closest_skip_last(spans.drop_last(), p, k - 1);
+        assert(spans.drop_last().take(spans.len() - k) =~= spans.take(spans.len() - k));
+    }
+}
+// (the immutable twin of `find_closest_mut`, whose contract unit appends states by hand for `Streams::get_mut`)
+//@ lift air/src/execution_step/execution_context/streams_variables/stream_descriptor.rs :: fn find_closest
+//@ props C13 C01
+//@ ret r
+//@ sig 1 "impl DoubleEndedIterator<Item = &'d StreamDescriptor>" => "core::slice::Iter<'d, StreamDescriptor>"
+//@ rewrite 1 "in descriptors.rev()" => "in it: descriptors.verif_rev()"
+//@ spec
+    ensures
+        // the LAST descriptor whose scope contains the position (descriptors are ordered by decreasing scope), None if there is none
+        match closest(ref_spans(descriptors.remaining()), position) {
+            Some(i) => r == Some(&descriptors.remaining()[i].stream),
+            None => r is None,
+        },
+//@ before "for descriptor in descriptors.rev()"
+    let ghost ds = descriptors.remaining();
+//@ loop 0
+        invariant
+            ds == descriptors.remaining(),
+            it.snapshot@.remaining() == ds.reverse(),
+            forall|i: int| ds.len() - it.index@ <= i < ds.len() ==> !span_contains((#[trigger] ds[i]).span, position),
+//@ before "if descriptor.span.contains_position(position)"
+        proof {
+            let k = it.index@;
+            assert(ds.reverse()[k] == ds[ds.len() - 1 - k]);
+            lemma_closest_skip_last(ref_spans(ds), position, k);
+            assert(ref_spans(ds).take(ds.len() - k).last() == ds[ds.len() - 1 - k].span);
+        }
+//@ before "return Some(&descriptor.stream);"
+            proof {
+                let k = it.index@;
+                assert(descriptor == ds[ds.len() - 1 - k]);
+                assert(ref_spans(ds).take(ds.len() - k).len() == ds.len() - k);
+                assert(closest(ref_spans(ds).take(ds.len() - k), position) == Some(ds.len() - k - 1));
+            }
+//@ before "None"
+    proof { lemma_closest_skip_last(ref_spans(ds), position, ds.len() as int); }
+//@ end
 
 // ---------------------------------------------------------------- the vocabulary of the contracts
+pub type Calls = Seq<(Stream, ExecutionResult<()>)>;
 // C10: the handler saw exactly one more `Stream::compactify`, of the stream `s` as it was (with every append it held), which returned `r`
-pub open spec fn one_compactify(t0: TraceHandler, t1: TraceHandler, s: Stream, r: ExecutionResult<()>) -> bool {
-    t1.compacted@ == t0.compacted@.push((s, r))
+pub open spec fn one_compactify(h0: TraceHandler, h1: TraceHandler, s: Stream, r: ExecutionResult<()>) -> bool {
+    h1.compacted@ == h0.compacted@.push((s, r))
 }
 // the compactify calls made with the handler between two states
-pub open spec fn new_calls(t0: TraceHandler, t1: TraceHandler) -> Seq<(Stream, ExecutionResult<()>)> {
-    t1.compacted@.skip(t0.compacted@.len() as int)
+pub open spec fn new_calls(h0: TraceHandler, h1: TraceHandler) -> Calls { h1.compacted@.skip(h0.compacted@.len() as int) }
+pub open spec fn only_grew(h0: TraceHandler, h1: TraceHandler) -> bool {
+    h0.compacted@.len() <= h1.compacted@.len() && forall|i: int| 0 <= i < h0.compacted@.len() ==> h1.compacted@[i] == h0.compacted@[i]
 }
-pub open spec fn only_grew(t0: TraceHandler, t1: TraceHandler) -> bool { t0.compacted@.is_prefix_of(t1.compacted@) }
 // "stops at the first error": every call but the last succeeded, and the result is the last call's (Ok if there was none)
-pub open spec fn stops_at_first_error(calls: Seq<(Stream, ExecutionResult<()>)>, r: ExecutionResult<()>) -> bool {
+pub open spec fn stops_at_first_error(calls: Calls, r: ExecutionResult<()>) -> bool {
     &&& forall|i: int| 0 <= i < calls.len() - 1 ==> (#[trigger] calls[i]).1 is Ok
     &&& r is Ok ==> (calls.len() > 0 ==> calls.last().1 is Ok)
     &&& r is Err ==> calls.len() > 0 && calls.last().1 == r
@@ -227,7 +331,6 @@ pub open spec fn stops_at_first_error(calls: Seq<(Stream, ExecutionResult<()>)>,
 pub open spec fn compactified_once(d0: StreamDescriptor, d1: StreamDescriptor) -> bool {
     d1.span == d0.span && d1.stream.calls@ == d0.stream.calls@ && d1.stream.compactions@ == d0.stream.compactions@ + 1
 }
-pub open spec fn untouched_or_compactified(d0: StreamDescriptor, d1: StreamDescriptor) -> bool { d1 == d0 || compactified_once(d0, d1) }
 // same names, same number of descriptors under each
 pub open spec fn same_shape(t0: StreamTable, t1: StreamTable) -> bool {
     &&& t1.dom() =~= t0.dom()
@@ -236,22 +339,73 @@ pub open spec fn same_shape(t0: StreamTable, t1: StreamTable) -> bool {
 pub open spec fn is_stream_of(t: StreamTable, s: Stream) -> bool {
     exists|n: Seq<char>, j: int| t.contains_key(n) && 0 <= j < t[n].len() && (#[trigger] t[n][j]).stream == s
 }
-pub open spec fn logged(calls: Seq<(Stream, ExecutionResult<()>)>, s: Stream) -> bool {
+pub open spec fn logged(calls: Calls, s: Stream) -> bool {
     exists|i: int| 0 <= i < calls.len() && (#[trigger] calls[i]).0 == s
+}
+// EVERY stream of EVERY descriptor of EVERY name was compactified (exactly once), as it was, with this handler
+pub open spec fn all_compactified(t0: StreamTable, t1: StreamTable, calls: Calls) -> bool {
+    forall|n: Seq<char>, j: int| #![trigger t0[n][j]] t0.contains_key(n) && 0 <= j < t0[n].len() ==>
+        compactified_once(t0[n][j], t1[n][j]) && logged(calls, t0[n][j].stream)
 }
 // C10, the contract of `compactify` over a whole table
 pub open spec fn table_compactified(t0: StreamTable, t1: StreamTable, h0: TraceHandler, h1: TraceHandler, r: ExecutionResult<()>) -> bool {
-    // the table keeps its names, scopes and appended values; a stream is compactified at most once
-    &&& same_shape(t0, t1)
-    &&& forall|n: Seq<char>, j: int| #![trigger t0[n][j]] t0.contains_key(n) && 0 <= j < t0[n].len() ==> untouched_or_compactified(t0[n][j], t1[n][j])
-    // only streams of the table are handed to Stream::compactify, and the calls stop at the first error, which is returned
+    &&& t1.dom() =~= t0.dom()
+    // only streams of the table are handed to Stream::compactify; the calls stop at the first error, which is returned
     &&& only_grew(h0, h1)
     &&& forall|i: int| 0 <= i < new_calls(h0, h1).len() ==> is_stream_of(t0, (#[trigger] new_calls(h0, h1)[i]).0)
     &&& stops_at_first_error(new_calls(h0, h1), r)
-    // Ok: EVERY stream of EVERY descriptor of EVERY name was
-    &&& r is Ok ==> forall|n: Seq<char>, j: int| #![trigger t0[n][j]] t0.contains_key(n) && 0 <= j < t0[n].len() ==>
-            compactified_once(t0[n][j], t1[n][j]) && logged(new_calls(h0, h1), t0[n][j].stream)
+    // Ok (the only case in which data is produced: farewell_step/outcome.rs compactify_streams): every stream was, and the table keeps
+    // its names, scopes and appended values. On Err nothing is said about the streams not yet visited (Verus does not know that an
+    // `IterMut` dropped early leaves the items it has not yielded as they are); the caller drops the context.
+    &&& r is Ok ==> same_shape(t0, t1) && all_compactified(t0, t1, new_calls(h0, h1))
 }
+pub broadcast proof fn lemma_skip_push<T>(s: Seq<T>, k: int, x: T)
+    requires 0 <= k <= s.len()
+    ensures #[trigger] s.push(x).skip(k) =~= s.skip(k).push(x)
+{}
+pub broadcast proof fn lemma_logged_push(calls: Calls, x: (Stream, ExecutionResult<()>), s: Stream)
+    ensures #[trigger] logged(calls.push(x), s) <==> (logged(calls, s) || x.0 == s)
+{
+    if logged(calls, s) {
+        let i = choose|i: int| 0 <= i < calls.len() && (#[trigger] calls[i]).0 == s;
+        assert(calls.push(x)[i].0 == s);
+    }
+    if x.0 == s { assert(calls.push(x)[calls.len() as int].0 == s); }
+    if logged(calls.push(x), s) {
+        let i = choose|i: int| 0 <= i < calls.push(x).len() && (#[trigger] calls.push(x)[i]).0 == s;
+        if i < calls.len() { assert(calls[i].0 == s); }
+    }
+}
+
+// ---------------------------------------------------------------- the call-order fact behind `requires` of meet_scope_end
+// Unit control_exec proves depth(scope log of the owning object, name) > 0 at the call of meet_scope_end. `depth <= bound_to(table, name).len()`
+// is kept by every operation on the table: each step below changes the length exactly as the matching scope event changes the depth
+// (Start +1 / End -1 for that name only), and an append (`one_append`, the contract of every append in unit appends) or a compactify
+// (`same_shape`) never shortens any list. Hence depth > 0 ==> a descriptor is bound. (Hand-written; the induction over the run is not mechanised.)
+//@ import-spec appends :: global_span stream_spans lookup one_more is_new_global add_value_res append_res one_append
+//@ lemma scope_len_steps props C01 C13
+proof fn scope_len_steps(t0: StreamTable, name: Seq<char>, d: StreamDescriptor, t_app: StreamTable, p: AirPos, v: ValueAggregate, g: Generation, t_cmp: StreamTable)
+    requires one_append(t0, t_app, name, p, v, g), same_shape(t0, t_cmp)
+    ensures
+        // meet_scope_start
+        ({ let t1 = t0.insert(name, bound_to(t0, name).push(d));
+           bound_to(t1, name).len() == bound_to(t0, name).len() + 1 && forall|n: Seq<char>| n != name ==> bound_to(t1, n) == bound_to(t0, n) }),
+        // meet_scope_end
+        t0.contains_key(name) && t0[name].len() > 0 ==> ({
+            let t1 = if t0[name].len() == 1 { t0.remove(name) } else { t0.insert(name, t0[name].drop_last()) };
+            bound_to(t1, name).len() == bound_to(t0, name).len() - 1 && forall|n: Seq<char>| n != name ==> bound_to(t1, n) == bound_to(t0, n) }),
+        // an append, a compactify
+        forall|n: Seq<char>| bound_to(t_app, n).len() >= bound_to(t0, n).len(),
+        forall|n: Seq<char>| bound_to(t_cmp, n).len() == bound_to(t0, n).len(),
+{
+    assert forall|n: Seq<char>| bound_to(t_app, n).len() >= bound_to(t0, n).len() by {
+        if lookup(t0, name, p) is None && !(append_res(t0, name, p, v, g) is Err) && n == name { assert(t_app.dom().contains(name)); }
+    }
+    assert forall|n: Seq<char>| bound_to(t_cmp, n).len() == bound_to(t0, n).len() by {
+        assert(t_cmp.contains_key(n) == t0.contains_key(n));
+    }
+}
+//@ end
 
 //@ lift air/src/execution_step/execution_context/streams_variables.rs :: struct Streams
 //@ pub-fields
@@ -264,11 +418,12 @@ impl Streams {
 //@ name Streams::meet_scope_start
 //@ props C13 C10 C01
 //@ rewrite 1 "let name = name.into();" => "let name = name_into(name);"
+//@ at-end
+        assert(self.streams@[name@] =~= bound_to(old(self)@, name@).push(StreamDescriptor { span, stream: fresh_stream() }));
 //@ spec
         ensures
-            // every descriptor that was bound to the name still is, in the same order, followed by the new restricted one (empty stream)
-            bound_to(final(self)@, into_text(name)) =~= bound_to(old(self)@, into_text(name)).push(StreamDescriptor { span, stream: fresh_stream() }),
-            // and every other name is untouched
+            // every descriptor that was bound to the name still is, in the same order, followed by the new restricted one (empty stream);
+            // every other name is untouched
             final(self)@ == old(self)@.insert(into_text(name),
                 bound_to(old(self)@, into_text(name)).push(StreamDescriptor { span, stream: fresh_stream() })),
             // C13
@@ -292,14 +447,208 @@ impl Streams {
             one_compactify(*old(trace_ctx), *final(trace_ctx), old(self)@[name@].last().stream, r),
 //@ end
 
+// loop_isolation(false): the loop bodies must know what `iter_mut()` promised about the final value of the borrowed table
+// (the `?` inside the inner loop is an exit of the function)
+#[verifier::loop_isolation(false)]
 //@ lift air/src/execution_step/execution_context/streams_variables.rs :: impl Streams :: fn compactify
 //@ name Streams::compactify
 //@ props C10 C13 C01
 //@ ret r
 //@ rewrite 1 "in self.streams.iter_mut()" => "in it: self.streams.iter_mut()"
-//@ rewrite 1 "for descriptor in descriptors {" => "for descriptor in it2: descriptors.iter_mut() {"
+//@ rewrite 1 "for descriptor in descriptors" => "for descriptor in it2: descriptors.iter_mut()"
 //@ spec
         ensures table_compactified(old(self)@, final(self)@, *old(trace_ctx), *final(trace_ctx), r)
+//@ loop 0
+          invariant
+            only_grew(*old(trace_ctx), *trace_ctx),
+            forall|c: int| 0 <= c < new_calls(*old(trace_ctx), *trace_ctx).len() ==> (#[trigger] new_calls(*old(trace_ctx), *trace_ctx)[c]).1 is Ok
+                && is_stream_of(old(self)@, new_calls(*old(trace_ctx), *trace_ctx)[c].0),
+            forall|i: int| 0 <= i < it.index@ ==> (*final((#[trigger] it.snapshot@.remaining()[i]).1))@.len() == old(self)@[it.snapshot@.remaining()[i].0@].len(),
+            forall|i: int, j: int| 0 <= i < it.index@ && 0 <= j < old(self)@[it.snapshot@.remaining()[i].0@].len() ==>
+                compactified_once(#[trigger] old(self)@[it.snapshot@.remaining()[i].0@][j], (*final(it.snapshot@.remaining()[i].1))@[j])
+                && logged(new_calls(*old(trace_ctx), *trace_ctx), old(self)@[it.snapshot@.remaining()[i].0@][j].stream),
+//@ before "for descriptor in descriptors"
+            let ghost ds0 = descriptors@;
+            let ghost key = it.snapshot@.remaining()[it.index@].0@;
+            assert(ds0 == old(self)@[key]);
+//@ loop 1
+              invariant
+                only_grew(*old(trace_ctx), *trace_ctx),
+                forall|c: int| 0 <= c < new_calls(*old(trace_ctx), *trace_ctx).len() ==> (#[trigger] new_calls(*old(trace_ctx), *trace_ctx)[c]).1 is Ok
+                    && is_stream_of(old(self)@, new_calls(*old(trace_ctx), *trace_ctx)[c].0),
+                forall|i: int, j: int| 0 <= i < it.index@ && 0 <= j < old(self)@[it.snapshot@.remaining()[i].0@].len() ==>
+                    logged(new_calls(*old(trace_ctx), *trace_ctx), (#[trigger] old(self)@[it.snapshot@.remaining()[i].0@][j]).stream),
+                it2.snapshot@.remaining().len() == ds0.len(),
+                forall|j: int| 0 <= j < ds0.len() ==> *(#[trigger] it2.snapshot@.remaining()[j]) == ds0[j],
+                forall|j: int| 0 <= j < it2.index@ ==> compactified_once(ds0[j], *final(#[trigger] it2.snapshot@.remaining()[j])),
+                forall|j: int| 0 <= j < it2.index@ ==> logged(new_calls(*old(trace_ctx), *trace_ctx), (#[trigger] ds0[j]).stream),
+//@ before "descriptor.stream.compactify(trace_ctx)?;"
+                proof {
+                    broadcast use {lemma_skip_push, lemma_logged_push};
+                    assert(old(self)@[key][it2.index@] == ds0[it2.index@]);
+                    assert(is_stream_of(old(self)@, descriptor.stream));
+                }
+                let ghost h_prev = *trace_ctx;
+                let ghost s_prev = descriptor.stream;
+//@ after "descriptor.stream.compactify(trace_ctx)?;"
+                proof {
+                    assert(new_calls(*old(trace_ctx), *trace_ctx) =~= new_calls(*old(trace_ctx), h_prev).push(trace_ctx.compacted@.last()));
+                    assert(new_calls(*old(trace_ctx), *trace_ctx).last().0 == s_prev);
+                    assert(logged(new_calls(*old(trace_ctx), *trace_ctx), s_prev));
+                }
+//@ after "            }"
+            proof {     // (anchor: the closing brace of the inner loop) what the inner loop did to this name's vector
+                assert(descriptors@.len() == ds0.len());
+                assert(forall|j: int| 0 <= j < ds0.len() ==> compactified_once(ds0[j], #[trigger] descriptors@[j]));
+                assert(forall|j: int| 0 <= j < ds0.len() ==> logged(new_calls(*old(trace_ctx), *trace_ctx), (#[trigger] ds0[j]).stream));
+            }
+//@ end
+}
+
+// ================================================================ stream_map.rs, stream_maps_variables.rs
+//@ lift air/src/execution_step/value_types/stream_map.rs :: struct StreamMap
+//@ pub-fields
+//@ derive
+//@ end
+impl StreamMap {
+//@ lift air/src/execution_step/value_types/stream_map.rs :: impl StreamMap :: fn new
+//@ name StreamMap::new
+//@ props C13
+//@ ret r
+//@ spec
+        ensures r == (StreamMap { stream: fresh_stream() })
+//@ end
+//@ lift air/src/execution_step/value_types/stream_map.rs :: impl StreamMap :: fn compactify
+//@ name StreamMap::compactify
+//@ props C10
+//@ ret r
+//@ spec
+        ensures
+            // the map's stream, with all its appends, is compactified and that call's result is returned
+            one_compactify(*old(trace_ctx), *final(trace_ctx), old(self).stream, r),
+            final(self).stream.calls@ == old(self).stream.calls@,
+            final(self).stream.compactions@ == old(self).stream.compactions@ + 1,
+//@ end
+}
+
+//@ lift air/src/execution_step/execution_context/stream_maps_variables.rs :: struct StreamMapDescriptor
+//@ derive
+//@ end
+impl StreamMapDescriptor {
+//@ lift air/src/execution_step/execution_context/stream_maps_variables.rs :: impl StreamMapDescriptor :: fn restricted
+//@ name StreamMapDescriptor::restricted
+//@ props C13
+//@ ret r
+//@ spec
+        ensures r == (StreamMapDescriptor { span, stream_map })
+//@ end
+}
+
+// the table of stream maps, and the same seen as a table of their underlying streams (as in unit appends)
+pub type StreamMapTable = Map<Seq<char>, Seq<StreamMapDescriptor>>;
+//@ import-spec appends :: as_stream_descriptor as_streams
+pub open spec fn maps_bound_to(t: StreamMapTable, name: Seq<char>) -> Seq<StreamMapDescriptor> {
+    if t.contains_key(name) { t[name] } else { Seq::empty() }
+}
+// the restricted descriptor `new` creates: the scope of the `new`, an empty map
+pub open spec fn new_map_descriptor(span: Span) -> StreamMapDescriptor {
+    StreamMapDescriptor { span, stream_map: StreamMap { stream: fresh_stream() } }
+}
+
+//@ lift air/src/execution_step/execution_context/stream_maps_variables.rs :: struct StreamMaps
+//@ pub-fields
+//@ derive
+//@ end
+impl StreamMaps {
+    pub open spec fn view(&self) -> StreamMapTable { self.stream_maps@ }
+
+//@ lift air/src/execution_step/execution_context/stream_maps_variables.rs :: impl StreamMaps :: fn meet_scope_start
+//@ name StreamMaps::meet_scope_start
+//@ props C13 C10 C01
+//@ rewrite 1 "let name = name.into();" => "let name = name_into(name);"
+//@ at-end
+        assert(self.stream_maps@[name@] =~= maps_bound_to(old(self)@, name@).push(new_map_descriptor(span)));
+        assert(as_streams(self.stream_maps@)[name@] =~= bound_to(as_streams(old(self)@), name@).push(as_stream_descriptor(new_map_descriptor(span))));
+//@ spec
+        ensures
+            // every descriptor that was bound to the name still is, in the same order, followed by the new restricted one (empty map);
+            // every other name is untouched
+            final(self)@ == old(self)@.insert(into_text(name), maps_bound_to(old(self)@, into_text(name)).push(new_map_descriptor(span))),
+            // C13
+            no_stream_lost(as_streams(old(self)@), as_streams(final(self)@)),
+//@ end
+
+//@ lift air/src/execution_step/execution_context/stream_maps_variables.rs :: impl StreamMaps :: fn meet_scope_end
+//@ name StreamMaps::meet_scope_end
+//@ props C13 C10 C01
+//@ ret r
+//@ spec
+        requires
+            // "met_scope_end must be called after met_scope_start" (the two unwraps): control_exec :: epilog / New::execute
+            old(self)@.contains_key(name@), old(self)@[name@].len() > 0,
+        ensures
+            // exactly the LAST descriptor bound to the name is removed ...
+            maps_bound_to(final(self)@, name@) =~= old(self)@[name@].drop_last(),
+            // ... the name goes iff nothing else is bound to it, every other name is untouched
+            final(self)@ == (if old(self)@[name@].len() == 1 { old(self)@.remove(name@) } else { old(self)@.insert(name@, old(self)@[name@].drop_last()) }),
+            // C10: the stream of the map that leaves the table is compactified, with all its appends, and that call's result is returned
+            one_compactify(*old(trace_ctx), *final(trace_ctx), old(self)@[name@].last().stream_map.stream, r),
+//@ end
+
+#[verifier::loop_isolation(false)]
+//@ lift air/src/execution_step/execution_context/stream_maps_variables.rs :: impl StreamMaps :: fn compactify
+//@ name StreamMaps::compactify
+//@ props C10 C13 C01
+//@ ret r
+//@ rewrite 1 "in self.stream_maps.iter_mut()" => "in it: self.stream_maps.iter_mut()"
+//@ rewrite 1 "in descriptors.iter_mut()" => "in it2: descriptors.iter_mut()"
+//@ spec
+        ensures table_compactified(as_streams(old(self)@), as_streams(final(self)@), *old(trace_ctx), *final(trace_ctx), r)
+//@ loop 0
+          invariant
+            only_grew(*old(trace_ctx), *trace_ctx),
+            forall|c: int| 0 <= c < new_calls(*old(trace_ctx), *trace_ctx).len() ==> (#[trigger] new_calls(*old(trace_ctx), *trace_ctx)[c]).1 is Ok
+                && is_stream_of(as_streams(old(self)@), new_calls(*old(trace_ctx), *trace_ctx)[c].0),
+            forall|i: int| 0 <= i < it.index@ ==> (*final((#[trigger] it.snapshot@.remaining()[i]).1))@.len() == old(self)@[it.snapshot@.remaining()[i].0@].len(),
+            forall|i: int, j: int| 0 <= i < it.index@ && 0 <= j < old(self)@[it.snapshot@.remaining()[i].0@].len() ==>
+                compactified_once(as_stream_descriptor(#[trigger] old(self)@[it.snapshot@.remaining()[i].0@][j]), as_stream_descriptor((*final(it.snapshot@.remaining()[i].1))@[j]))
+                && logged(new_calls(*old(trace_ctx), *trace_ctx), old(self)@[it.snapshot@.remaining()[i].0@][j].stream_map.stream),
+//@ before "for descriptor in descriptors"
+            let ghost ds0 = descriptors@;
+            let ghost key = it.snapshot@.remaining()[it.index@].0@;
+            assert(ds0 == old(self)@[key]);
+//@ loop 1
+              invariant
+                only_grew(*old(trace_ctx), *trace_ctx),
+                forall|c: int| 0 <= c < new_calls(*old(trace_ctx), *trace_ctx).len() ==> (#[trigger] new_calls(*old(trace_ctx), *trace_ctx)[c]).1 is Ok
+                    && is_stream_of(as_streams(old(self)@), new_calls(*old(trace_ctx), *trace_ctx)[c].0),
+                forall|i: int, j: int| 0 <= i < it.index@ && 0 <= j < old(self)@[it.snapshot@.remaining()[i].0@].len() ==>
+                    logged(new_calls(*old(trace_ctx), *trace_ctx), (#[trigger] old(self)@[it.snapshot@.remaining()[i].0@][j]).stream_map.stream),
+                it2.snapshot@.remaining().len() == ds0.len(),
+                forall|j: int| 0 <= j < ds0.len() ==> *(#[trigger] it2.snapshot@.remaining()[j]) == ds0[j],
+                forall|j: int| 0 <= j < it2.index@ ==> compactified_once(as_stream_descriptor(ds0[j]), as_stream_descriptor(*final(#[trigger] it2.snapshot@.remaining()[j]))),
+                forall|j: int| 0 <= j < it2.index@ ==> logged(new_calls(*old(trace_ctx), *trace_ctx), (#[trigger] ds0[j]).stream_map.stream),
+//@ before "descriptor.stream_map.compactify(trace_ctx)?;"
+                proof {
+                    broadcast use {lemma_skip_push, lemma_logged_push};
+                    assert(old(self)@[key][it2.index@] == ds0[it2.index@]);
+                    assert(as_streams(old(self)@)[key][it2.index@] == as_stream_descriptor(ds0[it2.index@]));
+                    assert(is_stream_of(as_streams(old(self)@), descriptor.stream_map.stream));
+                }
+                let ghost h_prev = *trace_ctx;
+                let ghost s_prev = descriptor.stream_map.stream;
+//@ after "descriptor.stream_map.compactify(trace_ctx)?;"
+                proof {
+                    assert(new_calls(*old(trace_ctx), *trace_ctx) =~= new_calls(*old(trace_ctx), h_prev).push(trace_ctx.compacted@.last()));
+                    assert(new_calls(*old(trace_ctx), *trace_ctx).last().0 == s_prev);
+                    assert(logged(new_calls(*old(trace_ctx), *trace_ctx), s_prev));
+                }
+//@ after "            }"
+            proof {     // (anchor: the closing brace of the inner loop) what the inner loop did to this name's vector
+                assert(descriptors@.len() == ds0.len());
+                assert(forall|j: int| 0 <= j < ds0.len() ==> compactified_once(as_stream_descriptor(ds0[j]), as_stream_descriptor(#[trigger] descriptors@[j])));
+                assert(forall|j: int| 0 <= j < ds0.len() ==> logged(new_calls(*old(trace_ctx), *trace_ctx), (#[trigger] ds0[j]).stream_map.stream));
+            }
 //@ end
 }
 
